@@ -1,4 +1,5 @@
 """C02 - per-period solve: status, iteration count, result flag and convergence agree."""
+from contracts.c05_solve import SolverDefaults
 from contracts.c02_solve_t import SolveTContract
 from contracts.c05_solve import SolvePeriodContract
 from props.solve_bounded import SolveTScripted
@@ -10,7 +11,7 @@ _c.shards = {'generic/offset0': 2, 'parser/offset0': 2, 'generic/offset': 6, 'pa
 
 PROPERTY = PropertySpec(
     id='C02',
-    contracts=[_c, SolvePeriodContract()],
+    contracts=[_c, SolvePeriodContract(), SolverDefaults()],
     bounded=[SolveTScripted()],
     level='proof',
     explanation='BaseModel.solve_t is symbolically executed from its real ast; the iteration loop is cut by an inductive invariant over '
